@@ -1,4 +1,5 @@
 import BevySyncModel.Proofs.CompBound
+import BevySyncModel.Proofs.AssetBound
 import BevySyncModel.Generated.Sync
 /-! # C09 — replication traffic is finite and self-quenching (component slice)
 
@@ -70,6 +71,22 @@ example :
       .flushH, .detectH, .reactH, .pollC 2 2, .flushC 2, .flushC 2, .detectC 2, .reactC 2, .pollC 3 2, .flushC 3, .flushC 3,
       .detectC 3, .reactC 3]
     (run false false replace s0 as).sent = 6 := by decide
+
+/-- **bounded work, uuid assets of the download classes.** A host-writer epoch sends at most `N` announcements per
+publication; a client-writer epoch at most one announcement to the host and one relay to each other client; readers (and
+the host of a client-writer epoch) announce nothing — applying a downloaded asset never makes a peer publish it. -/
+theorem C09_asset_host_epoch_bounded (x : Option Nat) (s : Asset.State) (v : Nat) (as : List Asset.Act)
+    (hs : Asset.Settled x s) (ha : ∀ a ∈ as, Asset.HostWrites a) :
+    (Asset.run true false (Asset.step true false s (.publishH v)) as).sent ≤
+      s.sent + s.clients.length * (1 + Asset.publishes as) :=
+  Asset.host_epoch_bounded x s v as hs ha
+
+theorem C09_asset_client_epoch_bounded (w : Nat) (hw0 : w ≠ 0) (x : Option Nat) (s : Asset.State) (v : Nat)
+    (as : List Asset.Act) (hn : (s.clients.map (·.id)).Nodup) (hp : ∃ cw ∈ s.clients, cw.id = w)
+    (hs : Asset.Settled x s) (ha : ∀ a ∈ as, Asset.ClientWrites w a) :
+    (Asset.run true false (Asset.step true false s (.publishC w v)) as).sent ≤
+      s.sent + (Asset.readers w s + 1) * (1 + Asset.publishes as) :=
+  Asset.client_epoch_bounded w hw0 x s v as hn hp hs ha
 
 /-- non-vacuity: two writes to two clients cost four messages, and idle frames afterwards none -/
 example :
